@@ -156,6 +156,8 @@ def mc_job(name, module, cfgs, props, export=True, strict=True, cap_q=None, cap_
 PROOFS = {"C04": ["ReplayWindow"]}
 STRICT_GENERATED = os.environ.get("VERIF_STRICT_GENERATED", "1") != "0"
 STRICT_QUICK_STEPS = int(os.environ.get("VERIF_STRICT_QUICK_STEPS", "800"))
+# the thorough tier follows more of every batch, but not everything: a strict step costs up to 30 ms on runs with much reassembly state
+STRICT_THOROUGH_STEPS = int(os.environ.get("VERIF_STRICT_THOROUGH_STEPS", "6000"))
 TIER = ["quick"]
 
 
@@ -184,7 +186,7 @@ def run_batch(plan, pid, name, scheds, wd, idx, world=None, monitor=None):
         strict = C.tlc_strict_dyn(os.path.abspath(tp), wd)
     if not name.startswith("model:") and world == "msg" and STRICT_GENERATED:
         # generated (seeded-random, boundary, hostile) schedules: the recorded trace must be a behaviour of the model as well
-        strict = C.strict_generated(scheds, tp, wd, max_steps=(STRICT_QUICK_STEPS if TIER[0] == "quick" else None))
+        strict = C.strict_generated(scheds, tp, wd, max_steps=(STRICT_QUICK_STEPS if TIER[0] == "quick" else STRICT_THOROUGH_STEPS))
     return {"sched_path": sp, "trace_path": tp, "harness": hres, "flags": flags, "cov": cov, "states": states, "tlc_s": dt, "strict": strict}
 
 
@@ -746,7 +748,8 @@ PLANS = {
                            cap_q=1200, timeout_t=3600)],
                 level="model_checking", assumptions=NC_ASSUME),
     "C19": Plan("nc", "TraceNetcodeMon", ["C19"], [("handshake_histories", g_nc_handshake), ("shapes", g_nc_shapes), ("token_table", g_nc_tokentable_thorough)],
-                mc=[mc_job("nc_cross", "MC_Netcode", {"quick": ["MC_NC_q1.cfg"], "thorough": ["MC_NC_q1.cfg", "MC_NC_q3.cfg", "MC_NC_bad.cfg"]}, ["C19"], strict=False)],
+                mc=[mc_job("nc_cross", "MC_Netcode", {"quick": ["MC_NC_q1.cfg", "MC_NC_q5.cfg", "MC_NC_q6.cfg"],
+                                                             "thorough": ["MC_NC_q1.cfg", "MC_NC_q3.cfg", "MC_NC_bad.cfg", "MC_NC_q5.cfg", "MC_NC_t5.cfg", "MC_NC_q6.cfg"]}, ["C19"], strict=False)],
                 level="model_checking", assumptions=NC_ASSUME),
     "C01": Plan("msg", "TraceRenetMon", ["C01"], [("random_ro", g_random_ro), ("random_mixed", g_random_mixed)],
                 mc=[mc_job("conn_ro", "MC_Conn", {"quick": ["MC_C01_q1.cfg"], "thorough": ["MC_C01_q1.cfg", "MC_C01_t1.cfg", "MC_C01_t2.cfg"]}, ["C01"])],
